@@ -25,7 +25,8 @@ type Stream struct {
 	last     bsonkit.Doc
 	pipeline bsonkit.List
 	signal   chan struct{}
-	oplog    func() *bsonkit.Set
+	trims    uint64
+	oplog    func() (*bsonkit.Set, uint64)
 	cancel   func()
 	event    bsonkit.Doc
 	token    interface{}
@@ -169,9 +170,11 @@ func (s *Stream) next(ctx context.Context, block bool) bool {
 		}
 
 		// get oplog
-		oplog := s.oplog()
+		oplog, trims := s.oplog()
 
-		// get index
+		// get index; a stream that has not seen any event yet has no position
+		// in the oplog and starts at its beginning, which is only correct as
+		// long as no events have been removed since the stream was opened
 		index := -1
 		if s.last != nil {
 			i, ok := oplog.Index[s.last]
@@ -183,6 +186,12 @@ func (s *Stream) next(ctx context.Context, block bool) bool {
 				return false
 			}
 			index = i
+		} else if trims != s.trims {
+			s.cancel()
+			s.closed = true
+			s.error = ErrLostOplogPosition
+			s.mutex.Unlock()
+			return false
 		}
 
 		// get next event
